@@ -685,6 +685,8 @@ int main(int argc, char **argv)
     }
     int rc = parsec_context_add_taskpool(parsec, (parsec_taskpool_t*)tp);
     if( rc != 0 ) { fprintf(stderr, "add_taskpool rc=%d\n", rc); return 2; }
+    MPI_Barrier(MPI_COMM_WORLD);      /* every rank is initialised: from here on "no progress" means something */
+    vs_arm();
     rc = parsec_context_start(parsec);
     if( rc != 0 ) { fprintf(stderr, "context_start rc=%d\n", rc); return 2; }
     rc = parsec_context_wait(parsec);
